@@ -747,7 +747,9 @@ class PyFat(object):
                     # Empty directory entry,
                     continue
                 elif ex.free_type == FATDirectoryEntry.LAST_DIR_ENTRY_MARK:
-                    # Last directory entry, do not parse any further
+                    # Last directory entry, do not parse any further;
+                    # signal the end of the directory to the caller
+                    tmp_lfn_entry = None
                     break
             else:
                 dir_hdr["DIR_Name"] = dir_sn
@@ -796,6 +798,9 @@ class PyFat(object):
                                                     tmp_lfn_entry)
             tmp_dir_entries, tmp_lfn_entry = ret
             dir_entries += tmp_dir_entries
+            if tmp_lfn_entry is None:
+                # End of directory reached, the rest of the chain is unused
+                break
 
         return dir_entries
 
